@@ -415,7 +415,7 @@ def build():
                         ("attempts are counted", "eject_try >= 0"),
                         ("the limit has not been reached yet", "implies(eject_request.max_tries != 0, eject_try < "
                                                                "eject_request.max_tries)")],
-             modifies=["self._cancel_future", "self._eject_future"],
+             modifies=["self._cancel_future", "self._eject_future", "eject_request.already_left"],
              body_ensures=[
                  ("E1: a pass makes at most one physical attempt, and only after the eject_attempt queue event and "
                   "the target's readiness gate", "n_eject_ball() <= 1 and attempt_after_gate()"),
@@ -435,7 +435,8 @@ def build():
               "after a failed attempt", "implies(result, not attempt_failed() and n_failed_eject() == 0)"),
              ("E1 (last pass)", "n_eject_ball() <= 1 and attempt_after_gate()"),
          ],
-         modifies=["self._cancel_future", "self._eject_future"], raises={"AssertionError": "False"})
+         modifies=["self._cancel_future", "self._eject_future", "eject_request.already_left"],
+         raises={"AssertionError": "False"})
     C.assume("C05 is PARTIAL: liveness ('eventually delivered', 'returns to idle') is not decided; _eject_ball, "
              "_skipping_ball, the request queue of BallDevice, the incoming balls handler and the ejectors are "
              "assumed / not under contract")
